@@ -87,66 +87,188 @@ theorem state_saved_before_use_explicit (v : Variant) (cfg : Cfg) (w : World)
   rw [h] at this
   exact savedMon_sound hk hr pre false this
 
-/-- **Order of the updates (current tree), key out of sync.**  With a URL stored and the binding
-unchanged, when the configured key differs from the recorded one (contacts changed or not):
-1. the first request is the key change, `kid`-authenticated and signed by the RECORDED (old) key;
+/-- **Order of the updates (key first), key out of sync.**  With a URL stored and the binding
+unchanged, when the configured key differs from the recorded one (contacts changed or not), for
+every tree that rolls the key over first:
+1. the first request is `kid`-authenticated and signed by the RECORDED (old) key: the key change,
+   or (since 1fb1c1a) the query of the account that precedes it;
 2. every contact update is `kid`-authenticated, signed by the CURRENT key, comes after it, and at
    that moment the CA — replayed from "holds the recorded key" — holds exactly that current key;
-3. overall every `kid` request is signed by the key the CA holds (`heldMon`), and when the
-   synchronisation returns the CA holds the current key. -/
-theorem sync_order_current (w : World) (hu : w.acc.hasUrl = true)
-    (hb : w.acc.bindingInSync = true) (hk : w.acc.keyInSync = false) :
-    ∃ es, (synchronize .current w).2.trace = w.trace ++ es ∧
-      (es = [] ∨ ∃ r rest, es = .exch .keyChange .kid w.acc.recKey r :: rest) ∧
+3. every `kid` request is signed by the key the CA holds, EXCEPT possibly a query of the account
+   signed by the current key (`heldMonP`); without that exception (`heldMon`) whenever the tree
+   sends no such query from this world (`mayAskCur v w = false`);
+4. when the synchronisation returns the CA holds the current key. -/
+theorem sync_order_keyFirst (v : Variant) (hv : v.keyFirst = true) (w : World)
+    (hu : w.acc.hasUrl = true) (hb : w.acc.bindingInSync = true) (hk : w.acc.keyInSync = false) :
+    ∃ es, (synchronize v w).2.trace = w.trace ++ es ∧
+      (es = [] ∨ (∃ r rest, es = .exch .keyChange .kid w.acc.recKey r :: rest) ∨
+        (v.rolloverCheck = .first ∧ ∃ r rest, es = .exch .accountProbe .kid w.acc.recKey r :: rest)) ∧
       (∀ pre a s r post, es = pre ++ .exch .accountUpdate a s r :: post →
         a = .kid ∧ s = w.acc.curKey ∧ heldEnd w.acc.curKey w.acc.recKey pre = w.acc.curKey ∧
         pre ≠ []) ∧
-      heldMon w.acc.curKey w.acc.recKey es = true ∧
-      ((synchronize .current w).1.tag = .ok →
+      heldMonP w.acc.curKey w.acc.recKey es = true ∧
+      (mayAskCur v w = false → heldMon w.acc.curKey w.acc.recKey es = true) ∧
+      ((synchronize v w).1.tag = .ok →
         heldEnd w.acc.curKey w.acc.recKey es = w.acc.curKey) := by
-  obtain ⟨es1, es2, t1, htr, hs1, hcase⟩ := sync_keyFirst_keyChanged .current rfl w hu hb hk
-  obtain ⟨hm1, he1⟩ := hs1.held (.inl rfl)
-  -- the whole trace is accepted by `heldMon`, ending with the current key
-  have hheld : heldMon w.acc.curKey w.acc.recKey (es1 ++ es2) = true ∧
-      ((synchronize .current w).1.tag = .ok →
+  obtain ⟨es1, es2, t1, htr, hs1, hus1, hnp1, hcase⟩ := sync_keyFirst_keyChanged v hv w hu hb hk
+  obtain ⟨hm1, he1⟩ := hs1.heldP
+  have hne : w.acc.recKey ≠ w.acc.curKey := by
+    intro h
+    simp [Acc.keyInSync, h] at hk
+  -- the whole trace is accepted by `heldMonP`, ending with the current key
+  have hheld : heldMonP w.acc.curKey w.acc.recKey (es1 ++ es2) = true ∧
+      NoProbe es2 ∧
+      ((synchronize v w).1.tag = .ok →
         heldEnd w.acc.curKey w.acc.recKey (es1 ++ es2) = w.acc.curKey) := by
-    rw [heldMon_append, heldEnd_append]
+    rw [heldMonP_append, heldEnd_append]
     rcases hcase with ⟨rfl, ⟨_, hs2⟩ | ⟨_, rfl, _⟩⟩ | ⟨_, rfl, _⟩
-    · obtain ⟨hm2, he2⟩ := hs2.held (.inr rfl)
+    · obtain ⟨hm2, he2⟩ := hs2.heldP (.inr rfl)
       rw [he1 rfl]
-      exact ⟨by rw [hm1, hm2]; rfl, he2⟩
-    · exact ⟨by simp [hm1, heldMon], fun _ => by simpa [heldEnd] using he1 rfl⟩
-    · refine ⟨by simp [hm1, heldMon], fun ht => ?_⟩
+      exact ⟨by rw [hm1, hm2]; rfl, hs2.noProbe_of_accountUpdate, he2⟩
+    · exact ⟨by simp [hm1, heldMonP], by simp [NoProbe], fun _ => by simpa [heldEnd] using he1 rfl⟩
+    · refine ⟨by simp [hm1, heldMonP], by simp [NoProbe], fun ht => ?_⟩
       rename_i hne htag
       rw [htag] at ht
       exact absurd ht hne
   -- first request
-  have hfirst : (es1 ++ es2 = [] ∨ ∃ r rest, es1 ++ es2 = .exch .keyChange .kid w.acc.recKey r :: rest) := by
-    rcases hs1 with ⟨rfl, ht1⟩ | ⟨r, rest, rfl, _⟩
-    · left
-      rcases hcase with ⟨rfl, _⟩ | ⟨_, rfl, _⟩
+  have hfirst1 : es1 = [] ∨ (∃ r rest, es1 = .exch .keyChange .kid w.acc.recKey r :: rest) ∨
+      (v.rolloverCheck = .first ∧ ∃ r rest, es1 = .exch .accountProbe .kid w.acc.recKey r :: rest) := by
+    by_cases hf : v.rolloverCheck = .first
+    · rcases hs1 with (⟨rfl, _⟩ | ⟨r, rest, rfl, _⟩) | ⟨p, rest, rfl, _⟩
+      · exact .inl rfl
+      · exact .inr (.inl ⟨r, rest, rfl⟩)
+      · exact .inr (.inr ⟨hf, p, rest, rfl⟩)
+    · rcases hus1 hf with ⟨rfl, _⟩ | ⟨r, rest, rfl, _⟩
+      · exact .inl rfl
+      · exact .inr (.inl ⟨r, rest, rfl⟩)
+  have hempty : es1 = [] → es2 = [] := by
+    rintro rfl
+    rcases hcase with ⟨rfl, _⟩ | ⟨_, rfl, _⟩
+    · rcases hs1 with (⟨_, ht1⟩ | ⟨_, _, h, _⟩) | ⟨_, _, h, _⟩
       · rcases ht1 with h | h <;> cases h
-      · rfl
-    · exact .inr ⟨r, rest ++ es2, rfl⟩
-  refine ⟨es1 ++ es2, htr, hfirst, ?_, hheld.1, hheld.2⟩
-  intro pre a s r post hsplit
-  have hmem : Ev.exch .accountUpdate a s r ∈ es1 ++ es2 := by rw [hsplit]; simp
-  have hsig : a = .kid ∧ s = w.acc.curKey := by
-    rcases List.mem_append.mp hmem with h | h
-    · have := (hs1.accountUpdate_events h).1
-      cases this
-    · rcases hcase with ⟨_, ⟨_, hs2⟩ | ⟨_, rfl, _⟩⟩ | ⟨_, rfl, _⟩
-      · exact (hs2.accountUpdate_events h).2
       · cases h
       · cases h
-  obtain ⟨rfl, rfl⟩ := hsig
-  have hm := hheld.1
-  rw [hsplit] at hm
-  refine ⟨rfl, rfl, (heldMon_sound _ _ hm).symm, ?_⟩
-  rintro rfl
-  rcases hfirst with h | ⟨r', rest', h⟩
-  · rw [hsplit] at h; cases h
-  · rw [hsplit] at h; cases h
+    · rfl
+  have hfirst : (es1 ++ es2 = [] ∨ (∃ r rest, es1 ++ es2 = .exch .keyChange .kid w.acc.recKey r :: rest) ∨
+      (v.rolloverCheck = .first ∧
+        ∃ r rest, es1 ++ es2 = .exch .accountProbe .kid w.acc.recKey r :: rest)) := by
+    rcases hfirst1 with h | ⟨r, rest, rfl⟩ | ⟨hf, r, rest, rfl⟩
+    · left; rw [h, hempty h]; rfl
+    · exact .inr (.inl ⟨r, rest ++ es2, rfl⟩)
+    · exact .inr (.inr ⟨hf, r, rest ++ es2, rfl⟩)
+  refine ⟨es1 ++ es2, htr, hfirst, ?_, hheld.1, ?_, hheld.2.2⟩
+  · intro pre a s r post hsplit
+    have hmem : Ev.exch .accountUpdate a s r ∈ es1 ++ es2 := by rw [hsplit]; simp
+    have hsig : a = .kid ∧ s = w.acc.curKey := by
+      rcases List.mem_append.mp hmem with h | h
+      · exact absurd h hs1.no_accountUpdate
+      · rcases hcase with ⟨_, ⟨_, hs2⟩ | ⟨_, rfl, _⟩⟩ | ⟨_, rfl, _⟩
+        · exact (hs2.accountUpdate_events h).2
+        · cases h
+        · cases h
+    obtain ⟨rfl, rfl⟩ := hsig
+    have hm := hheld.1
+    rw [hsplit] at hm
+    refine ⟨rfl, rfl, ?_, ?_⟩
+    · rcases heldMonP_sound _ _ hm with h | ⟨h, _⟩
+      · exact h.symm
+      · cases h
+    · rintro rfl
+      rcases hfirst with h | ⟨r', rest', h⟩ | ⟨_, r', rest', h⟩
+      · rw [hsplit] at h; cases h
+      · rw [hsplit] at h; cases h
+      · rw [hsplit] at h; cases h
+  · intro hcond
+    refine heldMon_of_heldMonP _ _ _ ?_ hheld.1
+    intro a s r hm
+    rcases List.mem_append.mp hm with h | h
+    · rw [hnp1 hcond a s r h]; exact hne
+    · exact absurd h (hheld.2.1 a s r)
+
+/-- **Order of the updates (current tree), key out of sync** — `sync_order_keyFirst` for the working
+tree.  Clause 3 holds without exception outside the class of the known finding
+(`rolloverProbeAtDeactivatedAccount`: the CA answers the account query signed by the recorded key
+with an error a failed signature verification produces); inside it, with the one exception: the
+account query signed by the current key (`heldMonP`). -/
+theorem sync_order_current (w : World) (hu : w.acc.hasUrl = true)
+    (hb : w.acc.bindingInSync = true) (hk : w.acc.keyInSync = false) :
+    ∃ es, (synchronize .current w).2.trace = w.trace ++ es ∧
+      (es = [] ∨ (∃ r rest, es = .exch .keyChange .kid w.acc.recKey r :: rest) ∨
+        ∃ r rest, es = .exch .accountProbe .kid w.acc.recKey r :: rest) ∧
+      (∀ pre a s r post, es = pre ++ .exch .accountUpdate a s r :: post →
+        a = .kid ∧ s = w.acc.curKey ∧ heldEnd w.acc.curKey w.acc.recKey pre = w.acc.curKey ∧
+        pre ≠ []) ∧
+      heldMonP w.acc.curKey w.acc.recKey es = true ∧
+      (rolloverProbeAtDeactivatedAccount w = false →
+        heldMon w.acc.curKey w.acc.recKey es = true) ∧
+      ((synchronize .current w).1.tag = .ok →
+        heldEnd w.acc.curKey w.acc.recKey es = w.acc.curKey) := by
+  obtain ⟨es, h1, h2, h3, h4, h5, h6⟩ := sync_order_keyFirst .current rfl w hu hb hk
+  refine ⟨es, h1, ?_, h3, h4, fun h => h5 h, h6⟩
+  rcases h2 with h | h | ⟨_, h⟩
+  · exact .inl h
+  · exact .inr (.inl h)
+  · exact .inr (.inr h)
+
+/-- `sync_order_current`, clause 3, as `_partial` over the complement of the finding's class. -/
+theorem sync_order_current_partial (w : World) (hu : w.acc.hasUrl = true)
+    (hb : w.acc.bindingInSync = true) (hk : w.acc.keyInSync = false)
+    (hc : rolloverProbeAtDeactivatedAccount w = false) :
+    ∃ es, (synchronize .current w).2.trace = w.trace ++ es ∧
+      heldMon w.acc.curKey w.acc.recKey es = true := by
+  obtain ⟨es, h1, _, _, _, h5, _⟩ := sync_order_current w hu hb hk
+  exact ⟨es, h1, h5 hc⟩
+
+/-- **Clause 3 without the exception is false of the working tree** (known finding
+`rollover-probe-at-deactivated-account`): the CA holds the recorded key 100 and answers the account
+query signed by 100 with an error of class `sigRefused` (a deactivated account); the next request is
+the account query signed by 101 — a key the CA does not hold.  No key change is sent. -/
+theorem sync_order_current_full_is_false :
+    ∃ w, w.acc.hasUrl = true ∧ w.acc.bindingInSync = true ∧ w.acc.keyInSync = false ∧
+      w.acc.caKey = w.acc.recKey ∧ rolloverProbeAtDeactivatedAccount w = true ∧
+      heldMon w.acc.curKey w.acc.recKey (synchronize .current w).2.trace = false ∧
+      (synchronize .current w).2.trace =
+        [.exch .accountProbe .kid 100 (.acmeErr .sigRefused),
+         .exch .accountProbe .kid 101 (.acmeErr .sigRefused)] :=
+  ⟨⟨[.acmeErr .sigRefused, .acmeErr .sigRefused], [], [], ⟨none, none⟩, 0, true,
+     ⟨true, true, true, true, 101, 100, 100, true⟩, []⟩, by decide +kernel⟩
+
+/-- Any OTHER refusal of the account query (userActionRequired, …) is returned as it is: one
+request, signed by the key the CA holds. -/
+example : (synchronize .current ⟨[.acmeErr .other, .ok .undecodable], [true, true], [],
+    ⟨none, none⟩, 0, true, ⟨true, true, true, true, 101, 100, 100, true⟩, []⟩).2.trace =
+      [.exch .accountProbe .kid 100 (.acmeErr .other)] := by decide +kernel
+
+/-- The tree before 5ce05e3 (no query of the account at all): EVERY `kid` request is signed by the
+key the CA holds, whatever the CA answers (the statement `sync_order_current` had then). -/
+theorem sync_order_preFix (w : World) (hu : w.acc.hasUrl = true)
+    (hb : w.acc.bindingInSync = true) (hk : w.acc.keyInSync = false) :
+    ∃ es, (synchronize .preFix w).2.trace = w.trace ++ es ∧
+      heldMon w.acc.curKey w.acc.recKey es = true ∧
+      ((synchronize .preFix w).1.tag = .ok →
+        heldEnd w.acc.curKey w.acc.recKey es = w.acc.curKey) := by
+  obtain ⟨es, h1, _, _, _, h5, h6⟩ := sync_order_keyFirst .preFix rfl w hu hb hk
+  exact ⟨es, h1, h5 rfl, h6⟩
+
+/-- **The tree at 5ce05e3 (check AFTER a refused key change) violates it in every world where the CA
+genuinely refuses the roll-over**: the CA holds the recorded key 100 and refuses the key change to
+101 (any ACME error other than accountDoesNotExist); the next request is the account query signed by
+101 — a key the CA does not hold. -/
+theorem sync_order_at5ce05e3_is_false :
+    ∃ w, w.acc.hasUrl = true ∧ w.acc.bindingInSync = true ∧ w.acc.keyInSync = false ∧
+      w.acc.caKey = w.acc.recKey ∧
+      heldMon w.acc.curKey w.acc.recKey (synchronize .at5ce05e3 w).2.trace = false ∧
+      (synchronize .at5ce05e3 w).2.trace =
+        [.exch .keyChange .kid 100 (.acmeErr .other), .exch .accountProbe .kid 101 (.acmeErr .other)] :=
+  ⟨⟨[.acmeErr .other, .acmeErr .other], [], [], ⟨none, none⟩, 0, true,
+     ⟨true, true, true, true, 101, 100, 100, true⟩, []⟩, by decide +kernel⟩
+
+/-- The same CA (holds 100, refuses the roll-over) seen by the working tree: the account query
+signed by 100 is answered, the key change signed by 100 is refused; nothing is signed by 101. -/
+example : (synchronize .current ⟨[.ok .undecodable, .acmeErr .other], [], [], ⟨none, none⟩, 0, true,
+    ⟨true, true, true, true, 101, 100, 100, true⟩, []⟩).2.trace =
+      [.exch .accountProbe .kid 100 (.ok .undecodable), .exch .keyChange .kid 100 (.acmeErr .other)] := by
+  decide +kernel
 
 /-- **Historical order violates it** (variant `old`, before e0bc7c2): URL stored, contacts AND key
 changed ⇒ the first request is the contact update, signed by the NEW key while the CA still holds
@@ -161,10 +283,11 @@ theorem sync_old_is_false :
   ⟨⟨[.acmeErr .other], [], [], ⟨none, none⟩, 0, true,
      ⟨true, false, true, true, 101, 100, 100, true⟩, []⟩, by decide +kernel⟩
 
-/-- The same world in the current tree: the roll-over goes first, signed by the recorded key. -/
+/-- The same world in the current tree: the roll-over block goes first, signed by the recorded key
+(its first request is the query of the account). -/
 example : (synchronize .current ⟨[.acmeErr .other], [], [], ⟨none, none⟩, 0, true,
     ⟨true, false, true, true, 101, 100, 100, true⟩, []⟩).2.trace.head? =
-      some (.exch .keyChange .kid 100 (.acmeErr .other)) := by decide +kernel
+      some (.exch .accountProbe .kid 100 (.acmeErr .other)) := by decide +kernel
 
 /-- "In line with the configuration", client side: URL stored and the three fingerprints equal
 those of the configuration. -/
@@ -218,67 +341,108 @@ theorem NoADNE.mono {w w' : World} (h : NoADNE w) (hc : Consumed w w') : NoADNE 
 
 /-- **One request per changed item (current tree).**  When the CA never answers
 `accountDoesNotExist` and the synchronisation returns, it made: one newAccount iff no URL was stored
-or the binding changed; one keyChange iff (URL stored, binding unchanged and) the key changed; one
-accountUpdate iff the contacts changed (and, in the binding-changed branch, the key did not); and
-nothing else. -/
+or the binding changed; one accountUpdate iff the contacts changed (and, in the binding-changed
+branch, the key did not); and when (URL stored, binding unchanged and) the key changed, exactly TWO
+requests for the roll-over (since 1fb1c1a): the query of the account signed by the recorded key,
+followed by the key change — or, when that query was answered with an error of class `sigRefused`
+(the CA already holds the current key: the answer to an earlier key change was lost), by the query
+signed by the current key and NO key change; and nothing else. -/
 theorem sync_one_per_item (w w' : World) (u : Unit)
     (h : synchronize .current w = (.val u, w')) (hn : NoADNE w) :
     ∃ es, w'.trace = w.trace ++ es ∧
       kindCount .newAccount es = (if w.acc.hasUrl && w.acc.bindingInSync then 0 else 1) ∧
-      kindCount .keyChange es =
-        (if w.acc.hasUrl && w.acc.bindingInSync && !w.acc.keyInSync then 1 else 0) ∧
+      kindCount .keyChange es + kindCount .accountProbe es =
+        (if w.acc.hasUrl && w.acc.bindingInSync && !w.acc.keyInSync then 2 else 0) ∧
+      kindCount .keyChange es ≤ 1 ∧
+      (.acmeErr .sigRefused ∉ w.exs → kindCount .keyChange es =
+        (if w.acc.hasUrl && w.acc.bindingInSync && !w.acc.keyInSync then 1 else 0)) ∧
       kindCount .accountUpdate es =
         (if w.acc.hasUrl && !w.acc.contactsInSync && (w.acc.bindingInSync || w.acc.keyInSync)
           then 1 else 0) ∧
       exCount es = kindCount .newAccount es + kindCount .keyChange es +
-        kindCount .accountUpdate es := by
+        kindCount .accountUpdate es + kindCount .accountProbe es := by
   -- exact traces of the three steps under `NoADNE`
   have hreg : ∀ {w w' : World} {u : Unit}, register w = (.val u, w') → ∃ es,
       w'.trace = w.trace ++ es ∧ kindCount .newAccount es = 1 ∧ kindCount .keyChange es = 0 ∧
-      kindCount .accountUpdate es = 0 ∧ exCount es = 1 := by
+      kindCount .accountUpdate es = 0 ∧ kindCount .accountProbe es = 0 ∧ exCount es = 1 := by
     intro w w' u h
     obtain ⟨ho, ex, rest, _, _, _, ht⟩ := register_val h
     exact ⟨_, ht, by simp [kindCount], by simp [kindCount], by simp [kindCount],
-      by rfl⟩
+      by simp [kindCount], by rfl⟩
   have hupc : ∀ {w w' : World} {u : Unit}, updateContacts w = (.val u, w') → NoADNE w → ∃ es,
       w'.trace = w.trace ++ es ∧ kindCount .newAccount es = 0 ∧ kindCount .keyChange es = 0 ∧
-      kindCount .accountUpdate es = 1 ∧ exCount es = 1 := by
+      kindCount .accountUpdate es = 1 ∧ kindCount .accountProbe es = 0 ∧ exCount es = 1 := by
     intro w w' u h hn
     rcases updateContacts_val h with ⟨b, rest, _, _, _, ht⟩ | ⟨rest, h1, _⟩
     · exact ⟨_, ht, by simp [kindCount], by simp [kindCount], by simp [kindCount],
-        by rfl⟩
+        by simp [kindCount], by rfl⟩
     · exact absurd (by rw [h1]; exact List.mem_cons_self) hn
-  have hupk : ∀ {w w' : World} {u : Unit}, updateKey w = (.val u, w') → NoADNE w → ∃ es,
-      w'.trace = w.trace ++ es ∧ kindCount .newAccount es = 0 ∧ kindCount .keyChange es = 1 ∧
-      kindCount .accountUpdate es = 0 ∧ exCount es = 1 := by
+  have hupk : ∀ {w w' : World} {u : Unit}, updateKey .current w = (.val u, w') → NoADNE w → ∃ es,
+      w'.trace = w.trace ++ es ∧ kindCount .newAccount es = 0 ∧ kindCount .accountUpdate es = 0 ∧
+      kindCount .keyChange es + kindCount .accountProbe es = 2 ∧ kindCount .keyChange es ≤ 1 ∧
+      (.acmeErr .sigRefused ∉ w.exs → kindCount .keyChange es = 1) ∧
+      exCount es = 2 := by
     intro w w' u h hn
-    rcases updateKey_val h with ⟨b, rest, _, _, _, ht⟩ | ⟨rest, h1, _⟩
-    · exact ⟨_, ht, by simp [kindCount], by simp [kindCount], by simp [kindCount],
-        by rfl⟩
-    · exact absurd (by rw [h1]; exact List.mem_cons_self) hn
+    rcases updateKey_val h with ⟨_, h⟩ | ⟨hv, _⟩
+    · obtain ⟨p, rest, hx, ⟨rfl, h1⟩ | ⟨hp, h1⟩⟩ := keyChangeChecked_val h
+      · obtain ⟨b, rest2, _, _, _, ht⟩ := checkNewKey_val h1
+        refine ⟨_, by rw [ht]; simp only [World.afterExch, List.append_assoc]; rfl, ?_, ?_, ?_, ?_, ?_, ?_⟩
+        · simp [kindCount, authOf]
+        · simp [kindCount, authOf]
+        · simp [kindCount, authOf]
+        · simp [kindCount, authOf]
+        · intro hno; exact absurd (by rw [hx]; exact List.mem_cons_self) hno
+        · rfl
+      · have hpok : isOkRes p = true := by
+          rcases hp with hp | hp
+          · exact hp
+          · exfalso
+            apply hn
+            rw [hx]
+            cases p with
+            | acmeErr ty => cases ty <;> first | exact List.mem_cons_self | cases hp
+            | _ => cases hp
+        rcases keyChangeStep_val h1 with ⟨b, rest2, _, _, _, ht⟩ | ⟨rest2, h2, _⟩ | ⟨hca, _⟩
+        · refine ⟨_, by rw [ht]; simp only [World.afterExch, List.append_assoc]; rfl, ?_, ?_, ?_, ?_, ?_, ?_⟩
+          · simp [kindCount, authOf]
+          · simp [kindCount, authOf]
+          · simp [kindCount, authOf]
+          · simp [kindCount, authOf]
+          · intro _; simp [kindCount, authOf]
+          · rfl
+        · exfalso
+          apply hn
+          rw [hx]
+          simp only [World.afterExch] at h2
+          rw [h2]
+          exact List.mem_cons_of_mem _ List.mem_cons_self
+        · cases hca
+    · exact absurd rfl hv
   cases hu : w.acc.hasUrl
   · rw [sync_eq_noUrl _ w hu] at h
-    obtain ⟨es, ht, c1, c2, c3, c4⟩ := hreg h
-    exact ⟨es, ht, by simp [c1], by simp [c2], by simp [c3], by omega⟩
+    obtain ⟨es, ht, c1, c2, c3, c4, c5⟩ := hreg h
+    exact ⟨es, ht, by simp [c1], by simp [c2, c4], by omega, fun _ => by simp [c2], by simp [c3],
+      by omega⟩
   · cases hb : w.acc.bindingInSync
     · rw [sync_eq_binding _ w hu hb] at h
       obtain ⟨u1, w1, h1, h2⟩ := bind_val_inv h
-      obtain ⟨es1, ht1, a1, a2, a3, a4⟩ := hreg h1
+      obtain ⟨es1, ht1, a1, a2, a3, a5, a4⟩ := hreg h1
       have hn1 : NoADNE w1 := hn.mono (register_acc h1).1
       by_cases hc : (Variant.current.bindingThenContacts &&
           (!w.acc.contactsInSync && w.acc.keyInSync)) = true
       · simp only [hc, if_true] at h2
-        obtain ⟨es2, ht2, b1, b2, b3, b4⟩ := hupc h2 hn1
+        obtain ⟨es2, ht2, b1, b2, b3, b5, b4⟩ := hupc h2 hn1
         have hc' : w.acc.contactsInSync = false ∧ w.acc.keyInSync = true := by
           simpa [Variant.current] using hc
-        refine ⟨es1 ++ es2, by rw [ht2, ht1]; simp, ?_, ?_, ?_, ?_⟩ <;>
-          simp only [kindCount_append, exCount_append, a1, a2, a3, a4, b1, b2, b3, b4, hc'.1, hc'.2] <;>
+        refine ⟨es1 ++ es2, by rw [ht2, ht1]; simp, ?_, ?_, ?_, ?_, ?_, ?_⟩ <;>
+          simp only [kindCount_append, exCount_append, a1, a2, a3, a4, a5, b1, b2, b3, b4, b5,
+            hc'.1, hc'.2] <;>
           simp
       · simp only [hc, Bool.false_eq_true, if_false, pure_run, Prod.mk.injEq] at h2
         have hc' : ¬(w.acc.contactsInSync = false ∧ w.acc.keyInSync = true) := by
           simpa [Variant.current] using hc
-        refine ⟨es1, by rw [← h2.2, ht1], ?_, ?_, ?_, ?_⟩ <;>
-          simp only [a1, a2, a3, a4] <;> simp
+        refine ⟨es1, by rw [← h2.2, ht1], ?_, ?_, ?_, ?_, ?_, ?_⟩ <;>
+          simp only [a1, a2, a3, a4, a5] <;> simp
         intro h3
         cases hk : w.acc.keyInSync
         · rfl
@@ -286,26 +450,60 @@ theorem sync_one_per_item (w w' : World) (u : Unit)
     · rw [sync_eq_keyFirst _ w hu hb rfl] at h
       obtain ⟨u1, w1, h1, h2⟩ := bind_val_inv h
       have hk : ∃ es1, w1.trace = w.trace ++ es1 ∧ NoADNE w1 ∧
-          kindCount .newAccount es1 = 0 ∧
-          kindCount .keyChange es1 = (if w.acc.keyInSync then 0 else 1) ∧
-          kindCount .accountUpdate es1 = 0 ∧
-          exCount es1 = (if w.acc.keyInSync then 0 else 1) := by
+          kindCount .newAccount es1 = 0 ∧ kindCount .accountUpdate es1 = 0 ∧
+          kindCount .keyChange es1 + kindCount .accountProbe es1 =
+            (if w.acc.keyInSync then 0 else 2) ∧
+          kindCount .keyChange es1 ≤ 1 ∧
+          (.acmeErr .sigRefused ∉ w.exs →
+            kindCount .keyChange es1 = (if w.acc.keyInSync then 0 else 1)) ∧
+          exCount es1 = (if w.acc.keyInSync then 0 else 2) := by
         cases hk : w.acc.keyInSync
         · simp only [hk, Bool.not_false, if_true] at h1
-          obtain ⟨es, ht, c1, c2, c3, c4⟩ := hupk h1 hn
-          exact ⟨es, ht, hn.mono (updateKey_acc h1).1, c1, by simp [c2], c3, by simp [c4]⟩
+          obtain ⟨es, ht, c1, c3, c2, c5, c6, c4⟩ := hupk h1 hn
+          exact ⟨es, ht, hn.mono (updateKey_acc h1).1, c1, c3, by simp [c2], c5,
+            fun hno => by simp [c6 hno], by simp [c4]⟩
         · simp only [hk, Bool.not_true, Bool.false_eq_true, if_false, pure_run, Prod.mk.injEq] at h1
-          exact ⟨[], by rw [← h1.2]; simp, by rw [← h1.2]; exact hn, rfl, rfl, rfl, rfl⟩
-      obtain ⟨es1, ht1, hn1, a1, a2, a3, a4⟩ := hk
+          exact ⟨[], by rw [← h1.2]; simp, by rw [← h1.2]; exact hn, rfl, rfl,
+            by simp [kindCount], by simp [kindCount], fun _ => rfl, rfl⟩
+      obtain ⟨es1, ht1, hn1, a1, a3, a2, a5, a6, a4⟩ := hk
       cases hc : w.acc.contactsInSync
       · simp only [hc, Bool.not_false, if_true] at h2
-        obtain ⟨es2, ht2, b1, b2, b3, b4⟩ := hupc h2 hn1
-        refine ⟨es1 ++ es2, by rw [ht2, ht1]; simp, ?_, ?_, ?_, ?_⟩ <;>
-          simp only [kindCount_append, exCount_append, a1, a2, a3, a4, b1, b2, b3, b4] <;>
+        obtain ⟨es2, ht2, b1, b2, b3, b5, b4⟩ := hupc h2 hn1
+        refine ⟨es1 ++ es2, by rw [ht2, ht1]; simp, ?_, ?_, ?_, ?_, ?_, ?_⟩
+        · simp [kindCount_append, a1, b1]
+        · simp only [kindCount_append, b2, b5]
+          cases hki : w.acc.keyInSync <;> simp [hki] at a2 ⊢ <;> omega
+        · simp only [kindCount_append, b2]; omega
+        · intro hno
+          simp only [kindCount_append, b2, a6 hno]
           cases w.acc.keyInSync <;> simp
+        · simp [kindCount_append, a3, b3]
+        · simp only [kindCount_append, exCount_append, a1, a3, a4, b1, b2, b3, b4, b5]
+          cases hki : w.acc.keyInSync <;> simp [hki] at a2 ⊢ <;> omega
       · simp only [hc, Bool.not_true, Bool.false_eq_true, if_false, pure_run, Prod.mk.injEq] at h2
-        refine ⟨es1, by rw [← h2.2, ht1], ?_, ?_, ?_, ?_⟩ <;>
-          simp only [a1, a2, a3, a4] <;> cases w.acc.keyInSync <;> simp
+        refine ⟨es1, by rw [← h2.2, ht1], ?_, ?_, ?_, ?_, ?_, ?_⟩
+        · simp [a1]
+        · simp only [a2]; cases w.acc.keyInSync <;> simp
+        · exact a5
+        · intro hno
+          simp only [a6 hno]
+          cases w.acc.keyInSync <;> simp
+        · simp [a3]
+        · simp only [a1, a3, a4]
+          cases hki : w.acc.keyInSync <;> simp [hki] at a2 ⊢ <;> omega
+
+/-- **"One keyChange iff the key changed, and nothing else" (the statement before 5ce05e3) is false of
+the working tree**: the CA already holds the current key (the answer to an earlier key change was
+lost); the synchronisation returns after two account queries and NO key change. -/
+theorem sync_one_per_item_old_statement_is_false :
+    ∃ w, (synchronize .current w).1.tag = .ok ∧ NoADNE w ∧ w.acc.keyInSync = false ∧
+      kindCount .keyChange (synchronize .current w).2.trace = 0 ∧
+      exCount (synchronize .current w).2.trace = 2 ∧
+      (synchronize .current w).2.acc.keyInSync = true :=
+  ⟨⟨[.acmeErr .sigRefused, .ok .undecodable], [true, true], [], ⟨none, none⟩, 0, true,
+     ⟨true, true, true, true, 101, 100, 101, true⟩, []⟩,
+   by refine ⟨by decide +kernel, by simp [NoADNE], by decide, by decide +kernel, by decide +kernel,
+        by decide +kernel⟩⟩
 
 /-- **The CA's record is brought into line (current tree).**  Assume that before the
 synchronisation the CA holds the recorded key, that recorded-in-sync contacts are really the CA's
@@ -359,13 +557,13 @@ theorem sync_ca_in_line (w w' : World) (u : Unit)
 unchanged; the CA answers newAccount with the existing account ⇒ the synchronisation returns with
 every fingerprint "in sync" while the CA still has the old contacts; no contact update is sent. -/
 theorem sync_binding_old_is_false :
-    ∃ w, (synchronize ⟨false, true, true, true, false⟩ w).1.tag = .ok ∧
+    ∃ w, (synchronize ⟨false, true, true, true, false, .first⟩ w).1.tag = .ok ∧
       w.acc.caKey = w.acc.recKey ∧ (w.acc.contactsInSync = true → w.acc.caContactsOk = true) ∧
       NoADNE w ∧ (∀ ho hl, .ok (.account ho hl true) ∈ w.exs →
         w.acc.hasUrl = true ∧ w.acc.keyInSync = true) ∧
-      Synced (synchronize ⟨false, true, true, true, false⟩ w).2.acc ∧
-      (synchronize ⟨false, true, true, true, false⟩ w).2.acc.caContactsOk = false ∧
-      kindCount .accountUpdate (synchronize ⟨false, true, true, true, false⟩ w).2.trace = 0 :=
+      Synced (synchronize ⟨false, true, true, true, false, .first⟩ w).2.acc ∧
+      (synchronize ⟨false, true, true, true, false, .first⟩ w).2.acc.caContactsOk = false ∧
+      kindCount .accountUpdate (synchronize ⟨false, true, true, true, false, .first⟩ w).2.trace = 0 :=
   ⟨⟨[.ok (.account true true true)], [true, true], [], ⟨none, none⟩, 0, true,
      ⟨true, false, false, true, 100, 100, 100, false⟩, []⟩,
    by
